@@ -65,6 +65,7 @@ VERUS_WITNESS.update({
     ("*", "predict_candidate"): [_w(MVD, "predict_c3_m4", 160, 20000), _w(MVD, "predict_c2_m3", 128, 20000), _w(MVD, "predict_c1_m1", 64, 20000)],
     ("*", "inverse_rle"): [_w(RLE, "single_intra", 5, 100000), _w(RLE, "multi3", 12, 50000)],
     ("*", "into_level"): [_w(TYPES, "intradc", 1, 2000)],
+    ("state", "*"): [("h263", "decoder::state::verif_hook::replay", "history_dyn", 64, 100000)],
     ("picture", "*"): [("h263", "parser::picture::verif_hook::replay", "hdr_std_dyn", 80, 300000), ("h263", "parser::picture::verif_hook::replay", "hdr_sor_dyn", 80, 100000)],
 })
 
